@@ -195,6 +195,14 @@ var harmlessEdits = map[string][]edit{
 		{srcPolicy, "if policy.egressRule != nil {\n\t\t\tif podLabelSelector.Matches(labels.Set(pod.Labels)) {",
 			"if policy.np.Namespace == pod.Namespace && podLabelSelector.Matches(labels.Set(pod.Labels)) {\n\t\t\tif policy.egressRule != nil {"},
 	},
+	"H32-H34: switch in peerRule, named condition, extracted handler body": {
+		{srcPolicy, "if tbl.SetType == ipset.HashIP {\n\t\t\tif rule.ipTable == nil {", "switch tbl.SetType {\n\t\tcase ipset.HashIP:\n\t\t\tif rule.ipTable == nil {"},
+		{srcPolicy, "\t\t} else if tbl.SetType == ipset.HashNet {\n", "\t\t// other types are ignored\n\t\tcase ipset.HashNet:\n"},
+		{srcPolicy, "if filteredIngressPolicy.Len() == 0 && filteredEgressPolicy.Len() == 0 {", "matchesNoPolicy := filteredIngressPolicy.Len() == 0 && filteredEgressPolicy.Len() == 0\n\tif matchesNoPolicy {"},
+		{srcPolicy, `podNameComment := fmt.Sprintf("%s_%s", pod.Name, pod.Namespace)`, `podNameComment := pod.Name + "_" + pod.Namespace`},
+		{srcEvent, "p.startPodInformerFactory()\n\t// if a policy is added, we should add policy chain before adding pod rules targeting this chain\n\tp.syncNetworkPolices()\n\tp.syncNetworkPolicyRules()\n\tp.syncPods()\n\treturn nil\n}",
+			"p.startPodInformerFactory()\n\tp.syncPolicyRulesThenPods()\n\treturn nil\n}\n\nfunc (p *PolicyManager) syncPolicyRulesThenPods() {\n\tp.syncNetworkPolices()\n\tp.syncNetworkPolicyRules()\n\tp.syncPods()\n}"},
+	},
 	"string building, messages, helpers": {
 		{srcPolicy, `fmt.Sprintf("%s-sip-%d-%s", NamePrefix, i, npNameHash)`, `NamePrefix + "-sip-" + strconv.Itoa(i) + "-" + npNameHash`},
 		{srcPolicy, `fmt.Sprintf("%s_%s", pod.Name, pod.Namespace)`, `pod.Name + "_" + pod.Namespace`},
